@@ -100,7 +100,7 @@ def clause_g(ctx, fx):
     import c04
     A = vmodel_anchors(ctx, fx)
     if A is not None:
-        c04.k4(common.RelabelCtx(ctx, "C01.g", keep=("claim-names", "aud-written", "sd_hash")), fx, A)
+        c04.k4(common.RelabelCtx(ctx, "C01.g", keep=("claim-names", "aud-written", "sd_hash", "kb-")), fx, A)
 
 
 def vmodel_anchors(ctx, fx):
